@@ -156,6 +156,55 @@ func c20R3(c *Ctx) {
 	if n != 3 {
 		c.bad("fileStep/writers", "", fmt.Sprintf("expected three writers of the displayed step, found %d", n))
 	}
+	// resumed files: the bytes kept from the existing file count towards the step and the size, and are forgotten with the next file
+	type w struct{ fn, key string; ok func(st *ssa.Store) bool }
+	nPre := 0
+	for _, f := range c.AllFns {
+		fname := c.fnName(f)
+		eachInstr(f, func(in ssa.Instruction) {
+			st, ok := in.(*ssa.Store)
+			if !ok {
+				return
+			}
+			if nm, _ := fieldAddrName(st.Addr); nm != "textProgressBar.preSize" {
+				return
+			}
+			nPre++
+			switch fname {
+			case "textProgressBar.onName":
+				c.check(isConstIntV(0)(st.Val), "preSize/reset@onName", c.ipos(st), "the kept-prefix size is forgotten when a new file starts", "the kept-prefix size of the previous file leaks into the next one")
+			case "textProgressBar.setPreSize":
+				c.check(isVar("size")(st.Val), "preSize/set", c.ipos(st), "the kept-prefix size is the value reported by the resume exchange", "the kept-prefix size is not the value reported by the resume exchange")
+			default:
+				c.bad("preSize/writer."+fname, c.ipos(st), "the kept-prefix size is written by an unexpected function")
+			}
+		})
+	}
+	c.check(nPre == 2, "preSize/writers", "", "the kept-prefix size has its two writers (reset at file start, set by the resume exchange)", fmt.Sprintf("expected two writers of the kept-prefix size, found %d", nPre))
+	os := c.fn("textProgressBar.onStep")
+	eachInstr(os, func(in ssa.Instruction) {
+		st, ok := in.(*ssa.Store)
+		if !ok {
+			return
+		}
+		if nm, _ := fieldAddrName(st.Addr); nm == "textProgressBar.fileStep" {
+			b, isB := strip(st.Val).(*ssa.BinOp)
+			good := isB && b.Op == token.ADD && ((isVar("step")(b.X) && isFieldLoad("preSize")(b.Y)) || (isVar("step")(b.Y) && isFieldLoad("preSize")(b.X)))
+			c.check(good, "fileStep/includes-kept-prefix", c.ipos(st), "the displayed step is the transferred step plus the kept prefix", "the displayed step ignores the kept prefix of a resumed file: the percentage is measured against the whole size but starts from zero")
+		}
+	})
+	oz := c.fn("textProgressBar.onSize")
+	eachInstr(oz, func(in ssa.Instruction) {
+		st, ok := in.(*ssa.Store)
+		if !ok {
+			return
+		}
+		if nm, _ := fieldAddrName(st.Addr); nm == "textProgressBar.fileSize" {
+			b, isB := strip(st.Val).(*ssa.BinOp)
+			good := isB && b.Op == token.ADD && ((isVar("size")(b.X) && isFieldLoad("preSize")(b.Y)) || (isVar("size")(b.Y) && isFieldLoad("preSize")(b.X)))
+			c.check(good, "fileSize/includes-kept-prefix", c.ipos(st), "the displayed size is the announced size plus the kept prefix", "the displayed size ignores the kept prefix")
+		}
+	})
 	// the size a step is measured against is the whole source size on both ends of a resume
 	for _, nm := range []struct{ fn string }{{"trzszTransfer.sendPrefixHash"}, {"trzszTransfer.recvPrefixHash"}} {
 		g := c.fn(nm.fn)
